@@ -36,3 +36,15 @@ claim('C12', 'other',
       _TB + '; main.elapsed_time and the current thread are stubs returning arbitrary reals (physical >= logical).',
       'symbolic execution of the real TempoClock methods (z3 Real terms) + SMT validity per law (NRA, ToInt witnesses)',
       'DESIGN.md 3/C12')
+
+claim('C15', 'other',
+      'Kernel laws (wrap/fold in bounds, clip idempotent, round/roundup/trunc multiples on the correct side within '
+      'one quantum, mod in [0,b), the four inverse pairs) are z3 validity queries over the terms the real builtins '
+      'compute for symbolic real and int arguments (range/quantum from a stated grid, lo/x symbolic). Lifting: for '
+      'every operator method of AbstractObject and every scbuiltin (enumerated from the code), over Function, Stream, '
+      'Pattern, ChannelList (lengths 1..3), Operand, Rest and plain numbers on either side, the evaluated composed '
+      'object equals the numeric operator applied to the evaluated operands (z3 equality of terms on every path; '
+      'concrete leaves where the kernel is C-only or non-linear for the solver).',
+      _TB + '; transcendental functions are uninterpreted with exp2/log2, exp10/log10 inverse axioms; decimal literals '
+      'denote their decimal value and 1/12, 1/440 their rationals.',
+      'symbolic execution of the real kernels/composition classes + SMT validity per law', 'DESIGN.md 3/C15')
